@@ -2,7 +2,7 @@
    command parser -> debugger -> VM). *)
 From Coq Require Import List NArith ZArith Bool Lia.
 From Lace Require Import Word Machine Isa Vm Asm Dbg DbgProofs DebugText.
-From Lace Require CmdSpec Cmd CmdProofs.
+From Lace Require CmdSpec Cmd CmdProofs DbgBad.
 Import ListNotations.
 Open Scope N_scope.
 
@@ -121,3 +121,25 @@ Theorem text_transparent env fuel arg stdin d st t e c :
   sr_kind (session env fuel (script_of_text arg stdin) d st t e c) <> 4 ->
   exists k, same_end (session env fuel (script_of_text arg stdin) d st t e c) (fst (vm_run (e_feat env) k st [])).
 Proof. intros H. apply session_transparent. apply readonly_script_spec. exact H. Qed.
+
+(* ------------------------------------------------------------------ *)
+(** * A rejected line has no effect on the session (C14, for the whole debugger) *)
+
+Lemma script_of_lines_ins ls1 l e ls2 : Cmd.try_from l = Cmd.Err e ->
+  DbgBad.ins (script_of_lines (ls1 ++ l :: ls2)) (script_of_lines (ls1 ++ ls2)).
+Proof.
+  intros H. induction ls1 as [|a ls1 IH]; cbn [app script_of_lines].
+  - rewrite H. apply DbgBad.ins_here.
+  - destruct (Cmd.try_from a); try apply DbgBad.ins_later; try exact IH; apply DbgBad.ins_eq.
+Qed.
+
+(** Wherever a rejected line stands among the lines of a script, the session with it and the
+    session without it end the same way: same stop, exit status, machine (registers, PC, condition
+    code, memory, console), same iteration / instruction / command counts, same breakpoints,
+    status and saved initial state.  Only the debugger's stderr differs (by the report). *)
+Theorem rejected_line_session env fuel ls1 l e ls2 d st t e0 c : Cmd.try_from l = Cmd.Err e ->
+  DbgBad.same_but_stderr (session env fuel (script_of_lines (ls1 ++ l :: ls2)) d st t e0 c)
+                         (session env fuel (script_of_lines (ls1 ++ ls2)) d st t e0 c).
+Proof.
+  intros H. apply DbgBad.session_ins; [apply (script_of_lines_ins ls1 l e ls2 H)|apply DbgBad.eqd_refl].
+Qed.
